@@ -1,6 +1,9 @@
 package main
 
 import (
+	"go/build/constraint"
+	"path/filepath"
+	"strings"
 	"go/token"
 	"fmt"
 	"os"
@@ -167,4 +170,61 @@ func (x *Exec) collectLocalAssigns(body ast.Node) {
 		}
 		return true
 	})
+}
+
+// perIterationLoopVars: does the file containing n have Go 1.22 loop-variable semantics (a new
+// variable per iteration)? The language version of a file is the go directive of its module,
+// lowered by a //go:build go1.N constraint of the file itself.
+func (x *Exec) perIterationLoopVars(n ast.Node) bool {
+	f := x.ld.Fset.File(n.Pos())
+	if f == nil {
+		return true
+	}
+	name := f.Name()
+	x.ld.langMu.Lock()
+	defer x.ld.langMu.Unlock()
+	if v, ok := x.ld.langOK[name]; ok {
+		return v
+	}
+	major, minor := 1, 22
+	// module go directive
+	dir := filepath.Dir(name)
+	for i := 0; i < 8 && dir != "/" && dir != "."; i++ {
+		if b, err := os.ReadFile(filepath.Join(dir, "go.mod")); err == nil {
+			for _, ln := range strings.Split(string(b), "\n") {
+				if strings.HasPrefix(ln, "go ") {
+					fmt.Sscanf(strings.TrimPrefix(ln, "go "), "%d.%d", &major, &minor)
+				}
+			}
+			break
+		}
+		dir = filepath.Dir(dir)
+	}
+	// file-level constraint
+	if b, err := os.ReadFile(name); err == nil {
+		for _, ln := range strings.Split(string(b), "\n") {
+			t := strings.TrimSpace(ln)
+			if strings.HasPrefix(t, "package ") {
+				break
+			}
+			if constraint.IsGoBuild(t) {
+				if e, err := constraint.Parse(t); err == nil {
+					if gv := constraint.GoVersion(e); gv != "" {
+						var a, c int
+						if n, _ := fmt.Sscanf(gv, "go%d.%d", &a, &c); n == 2 {
+							if a < major || (a == major && c < minor) {
+								major, minor = a, c
+							}
+						}
+					}
+				}
+			}
+		}
+	}
+	ok := major > 1 || minor >= 22
+	if x.ld.langOK == nil {
+		x.ld.langOK = map[string]bool{}
+	}
+	x.ld.langOK[name] = ok
+	return ok
 }
